@@ -387,6 +387,20 @@ class Export(object):
                 # original dataset, we also create a new basin that
                 # refers to the original dataset itself.
                 basin_list = [bn.as_dict() for bn in ds.basins]
+                if ds.format == "hierarchy":
+                    # The basins of a hierarchy child are those of its root
+                    # parent. Their event indices (and mappings) refer to
+                    # the root parent, not to the child. Map them to the
+                    # events of the child first.
+                    from .fmt_hierarchy import map_indices_child2root
+                    root_idx = map_indices_child2root(
+                        child=ds, child_indices=np.arange(len(ds)))
+                    for bn_dict in basin_list:
+                        bm_root = bn_dict.get("basin_map")
+                        if bm_root is None:
+                            bn_dict["basin_map"] = root_idx
+                        else:
+                            bn_dict["basin_map"] = bm_root[root_idx]
                 # In addition to the upstream basins, also store a reference
                 # to the original file from which the export was done.
                 if ds.format in get_basin_classes():
